@@ -370,3 +370,10 @@ pub mod crypto {
         //@end
     }
 }
+//@canary drop-prevsig :: crypto::generate_block_signature_payload_v1 :: to_verify.extend(previous_signature.to_bytes()); ==>>
+//@canary lax-ed25519 :: crypto::ed25519::PublicKey::verify_signature :: .verify_strict(&data, &sig) ==>> .verify(&data, &sig)
+//@canary ext-prevsig :: crypto::verify_external_signature :: generate_external_signature_payload_v1(payload, previous_signature.to_bytes(), version) ==>> generate_external_signature_payload_v1(payload, &[], version)
+//@canary seal-err :: crypto::TokenNext::keypair :: Err(error::Token::AlreadySealed) ==>> Err(error::Token::InternalError)
+//@canary sign-v1-as-v0 :: crypto::sign_block :: 1 => generate_block_signature_payload_v1( ==>> 7 => generate_block_signature_payload_v1(
+//@canary-requires crypto::ed25519::KeyPair::private
+//@canary-requires crypto::KeyPair::private
